@@ -75,6 +75,44 @@ vdie(const char *prefix, const char *func, const char *errstr, ...)
 	abort();
 }
 
+#ifdef OVNI_VERIF
+#include <time.h>
+
+void
+verif_yield(const char *site)
+{
+	static int enabled = -1;
+	static unsigned seed = 0;
+	static _Thread_local unsigned state = 0;
+
+	if (enabled < 0) {
+		const char *e = getenv("OVNI_VERIF_DELAY");
+		seed = e ? (unsigned) atoi(e) : 0;
+		enabled = (e != NULL);
+	}
+
+	if (!enabled)
+		return;
+
+	if (state == 0) {
+		/* Mix the address of a thread-local so each thread differs */
+		state = seed * 2654435761u + (unsigned) (uintptr_t) &state + 1u;
+	}
+
+	/* xorshift */
+	state ^= state << 13;
+	state ^= state >> 17;
+	state ^= state << 5;
+
+	unsigned h = state;
+	for (const char *p = site; *p; p++)
+		h = h * 31u + (unsigned) *p;
+
+	struct timespec ts = { 0, (long) (h % 200u) * 1000L };
+	nanosleep(&ts, NULL);
+}
+#endif
+
 static int
 mkdir_if_need(const char *path, mode_t mode)
 {
@@ -83,6 +121,7 @@ mkdir_if_need(const char *path, mode_t mode)
 		return 0;
 
 	if (errno == EEXIST) {
+		OVNI_VERIF_YIELD("mkdir_eexist");
 		struct stat st;
 		if (stat(path, &st) != 0)
 			return -1;
